@@ -18,6 +18,8 @@ def errName : UErr → String
   | .invalidArgument => "InvalidArgument"
   | .unimplemented => "Unimplemented"
   | .exceedMaxFactor => "ExceedMaxMarketConfigFactor"
+  | .notFound => "NotFound"
+  | .preconditionsNotMet => "PreconditionsAreNotMet"
 
 /-- did the handler leave every key and flag as it was? -/
 def sameCfg (a b : Cfg) : Bool :=
@@ -42,8 +44,56 @@ def showTouched (es : List Entry) (c : Cfg) : String :=
   let ks := (Key.all.filter fun k => es.any fun e => e.1 == k.index)
   "ok " ++ ";".intercalate (ks.map fun k => s!"{k.snake}={(c.get k).getD 0}")
 
+def pState (s : String) : Option Gmx.Access.RoleState :=
+  if s = "e" then some .enabled else if s = "n" then some .never else if s = "d" then some .disabled else none
+
+/-- role table of the store for the caller: states of the two roles, and what the caller holds
+(`none` = not a member, `other` = member through an unrelated enabled role) -/
+def tableOf (mk mck : Gmx.Access.RoleState) (holds : String) : Option Gmx.Access.RoleTable :=
+  let okHold := fun (st : Gmx.Access.RoleState) (h : Bool) => !(h && st == .never)
+  let hmk := holds = "mk" || holds = "both"
+  let hmck := holds = "mck" || holds = "both"
+  if !(["none", "other", "mk", "mck", "both"].contains holds) || !okHold mk hmk || !okHold mck hmck then none else
+  some ⟨fun r => if r == .MARKET_KEEPER then mk else if r == .MARKET_CONFIG_KEEPER then mck else .enabled,
+        holds != "none",
+        fun r => (hmk && r == .MARKET_KEEPER) || (hmck && r == .MARKET_CONFIG_KEEPER)⟩
+
+def showRes (c0 : Cfg) (okText : Cfg → String) : Res → String
+  | (c, .ok ()) => okText c
+  | (c, .error e) => s!"err {errName e} {if sameCfg c c0 then "same" else "changed"}"
+
 def c20Engine (args : List String) : String :=
   match args with
+  | "rt" :: op :: mks :: mcks :: holds :: rest =>
+    match pState mks, pState mcks with
+    | some mks, some mcks =>
+      match tableOf mks mcks holds with
+      | none => "bad-config"
+      | some t =>
+        let c0 := sentinelCfg base
+        match op, rest with
+        | "factor", [upd, key, v] =>
+          match pBool upd, pNat v with
+          | some upd, some v =>
+            let k := Key.ofSnake? key
+            let p : Perms := ⟨fun k' => upd && some k' == k, fun _ => false⟩
+            showRes c0 (fun c => match k with | some k => s!"ok {(c.get k).getD 0}" | none => "ok ?") (updateFactorE t p k v c0)
+          | _, _ => "bad-op"
+        | "flag", [upd, key, b] =>
+          match pBool upd, pBool b with
+          | some upd, some b =>
+            let x := Flag.ofSnake? key
+            let p : Perms := ⟨fun _ => false, fun x' => upd && some x' == x⟩
+            showRes c0 (fun c => match x with | some x => s!"ok {showBool (c.flag x)}" | none => "ok ?") (updateFlagE t p x b c0)
+          | _, _ => "bad-op"
+        | "buffer", [owned, delta, upd, entries] =>
+          match pBool owned, pInt delta, parseKeySet upd, parseEntries entries with
+          | some owned, some delta, some upd, some es =>
+            let p : Perms := ⟨fun k => upd.contains k, fun _ => false⟩
+            showRes c0 (showTouched es) (updateWithBufferE t p owned 0 delta es c0)
+          | _, _, _, _ => "bad-op"
+        | _, _ => "bad-op"
+    | _, _ => "bad-op"
   | ["factor", mk, mck, upd, key, v] =>
     match pBool mk, pBool mck, pBool upd, pNat v with
     | some mk, some mck, some upd, some v =>
